@@ -290,7 +290,8 @@ class C12(Check):
             'volatile borrowers, optional enclosing until()), concurrent increase/decrease/set; Task.cancel injected at '
             'sampled (thorough: all) boundaries of every borrower; levels sampled at every activation boundary. '
             'non-trivial = demand exceeded supply at some boundary, or a block was interrupted/closed while acquiring, '
-            'holding or releasing; distinct by sha1(program+faults).')
+            'holding or releasing; distinct by sha1(program+faults). Also tasks of a scope opened inside a borrow block that borrow '
+            'parts of the share, and pairs of stop signals within a few activations.')
     budgets = {'quick': dict(examples=1600, procs=4), 'thorough': dict(examples=12000, procs=16)}
     level_text = ('Sequential resource model + exhaustive boundary cancel injection: at every activation boundary '
                   'supply - (acquiring+held+releasing) <= levels <= supply - held and levels >= 0 (nested shares '
